@@ -26,10 +26,12 @@ import (
 	"sync"
 	"syscall"
 	"time"
+	"unicode/utf8"
 
 	pb "github.com/jamf/regatta/regattapb"
 	_ "github.com/jamf/regatta/regattaserver/encoding/proto" // the codec regatta's own clients use
 	"google.golang.org/grpc/codes"
+	"google.golang.org/grpc/status"
 
 	"verifharness/internal/ev"
 	"verifharness/internal/model"
@@ -310,6 +312,7 @@ type lane struct {
 	restarts int
 	dead     bool // lane cannot continue
 
+	repairing                   bool
 	follWritesOff               bool
 	follTimeouts                int
 	tSend, tDump, tWait, tStart time.Duration
@@ -443,6 +446,7 @@ func (l *lane) run(cases int, upto int) {
 			}
 		}
 		l.exec(q)
+		l.repairStable()
 	}
 	l.finish()
 }
@@ -490,6 +494,74 @@ func (l *lane) rawFrom(r *rand.Rand, base *request, mut string) *request {
 	q := &request{N: base.N, Follower: base.Follower, Method: base.Method, Kind: "raw:" + mut, IsRaw: true, Raw: raw}
 	q.Msg = decode(base.Method, raw)
 	return q
+}
+
+// repairStable re-creates a stable table that a (wrongly accepted) request made disappear, so
+// that the rest of the run still has its tables; the follower is given time to follow.
+func (l *lane) repairStable() {
+	if l.dead || l.repairing {
+		return
+	}
+	for _, t := range l.env.stable {
+		if l.tableExists(t) {
+			continue
+		}
+		l.repairing = true
+		l.r.Count("stable_table_repairs", 1)
+		l.exec(&request{N: -2, Method: mCreate, Kind: "repair", Msg: &pb.CreateTableRequest{Name: t}})
+		for _, k := range []string{"a", "ab", "k1", "zz"} {
+			l.exec(&request{N: -2, Method: mPut, Kind: "repair", Msg: &pb.PutRequest{Table: []byte(t), Key: []byte(k), Value: []byte("v0")}})
+		}
+		if l.hasFollower() && !l.dead {
+			time.Sleep(1500 * time.Millisecond) // let the follower drop the old incarnation first
+			l.waitFollower()
+		}
+		l.repairing = false
+	}
+}
+
+// answers tells whether key-value requests addressed to the table name are served.
+func (l *lane) answers(name string) bool {
+	// (an unlisted table is not covered by waitUsable: give its Raft group a moment to start)
+	for i := 0; i < 150; i++ {
+		_, err := dumpTable(l.cli.lkv, name)
+		if err == nil {
+			return true
+		}
+		if c := status.Code(err); c != codes.Unavailable || !l.alive() {
+			return false
+		}
+		time.Sleep(40 * time.Millisecond)
+	}
+	return false
+}
+
+func (w world1) names() []string {
+	var out []string
+	for t := range w.tables {
+		out = append(out, fmt.Sprintf("%q", trunc(t, 40)))
+	}
+	sort.Strings(out)
+	return out
+}
+
+// tableOf returns the table a key-value / tables request names ("" if none).
+func tableOf(msg any) string {
+	switch m := msg.(type) {
+	case *pb.RangeRequest:
+		return string(m.GetTable())
+	case *pb.PutRequest:
+		return string(m.GetTable())
+	case *pb.DeleteRangeRequest:
+		return string(m.GetTable())
+	case *pb.TxnRequest:
+		return string(m.GetTable())
+	case *pb.DeleteTableRequest:
+		return m.GetName()
+	case *pb.CreateTableRequest:
+		return m.GetName()
+	}
+	return ""
 }
 
 func isStable(e *genEnv, name string) bool {
@@ -587,6 +659,8 @@ func (l *lane) catalogue() []*request {
 	// hostile (but legal) numeric fields first: limits no table can satisfy, on every read path,
 	// over ranges that HOLD keys (t1 carries the prelude's a, ab, k1, zz at this point)
 	out = append(out, hugeLimitCases(l.id%2 == 0, e.hasFoll)...)
+	// look-alike spellings of the names of the tables that exist now
+	out = append(out, e.aliasCases(l.id%2 == 0 && e.hasFoll)...)
 	if l.id%2 == 0 {
 		for _, m := range []string{mRange, mIterate} {
 			for _, k := range rangeViolations {
@@ -860,6 +934,11 @@ func (l *lane) exec(q *request) {
 		l.r.Count("follower_requests", 1)
 	}
 	ruleForStats := exp.Rule
+	if strings.HasSuffix(exp.Rule, "-unknown-table") {
+		if t := aliasTarget(tableOf(q.Msg), l); t != "" {
+			ruleForStats = exp.Rule + "-path-alias-of-existing" // narrower class: the name cleans, as a path, to an existing table's
+		}
+	}
 	switch {
 	case q.IsRaw:
 		l.r.Count("raw_mutants", 1)
@@ -978,6 +1057,33 @@ func (l *lane) exec(q *request) {
 		l.dumpFailed(q, exp, err)
 		return
 	}
+	if m, ok := q.Msg.(*pb.CreateTableRequest); ok && m != nil && q.Method == mCreate && !q.Follower && exp.Class == expUnknown &&
+		m.Name != "" && utf8.ValidString(m.Name) && !l.tableExists(m.Name) {
+		// No rule says which names are acceptable, but an ACCEPTED creation has one meaning: a new,
+		// empty table listed under exactly the name sent, everything else untouched. (Names that
+		// are not UTF-8 are left out: the listing cannot return them byte for byte.)
+		l.models[m.Name] = model.NewTable()
+		if _, listed := d.tables[m.Name]; !listed && l.answers(m.Name) {
+			// the table exists (key-value requests reach it) but Tables.List does not show it
+			cls := nameClass(m.Name)
+			if strings.Contains(m.Name, "/") {
+				cls = "name-with-slash"
+			}
+			l.sh.violation("accepted-tables-create-not-listed-"+cls, fmt.Sprintf("Tables.Create of %s answered OK and key-value requests reach the new table, but Tables.List does not show it", qb([]byte(m.Name))),
+				l.witness(q, exp, observed, "Tables.List after the creation: "+strings.Join(d.names(), ", ")))
+			// drop it again (directly: it cannot be judged against a listing that does not show it)
+			ctx, cancel := context.WithTimeout(context.Background(), 10*time.Second)
+			_, _ = l.cli.ltab.Delete(ctx, &pb.DeleteTableRequest{Name: m.Name})
+			cancel()
+			delete(l.models, m.Name)
+			l.r.Count("unlisted_tables_dropped", 1)
+		} else if diff := diffWorld(d, l.models); diff != "" {
+			l.sh.violation("accepted-tables-create-state-differs-from-model", fmt.Sprintf("after the accepted Tables.Create of %s the table list / dumps are not 'as before plus one empty table of that name': %s", qb([]byte(m.Name)), diff),
+				l.witness(q, exp, observed, diff))
+		} else {
+			l.sh.sample("accepted:unusual-name", map[string]any{"accepted_creation_of_unusual_name": m.Name, "listed_under_exactly_that_name": true, "other_tables_unchanged": true})
+		}
+	}
 	if diff := diffWorld(d, l.models); diff != "" {
 		l.r.Count("accepted_unjudged_changed_state", 1)
 		if exp.Class == "code" || exp.Class == expNonOK {
@@ -987,7 +1093,7 @@ func (l *lane) exec(q *request) {
 	l.adopt(d)
 	if q.Method == mCreate {
 		// hostile names that were accepted: drop the table again to keep the world small
-		if m, ok := q.Msg.(*pb.CreateTableRequest); ok && m != nil && !plainName(m.Name) && l.tableExists(m.Name) {
+		if m, ok := q.Msg.(*pb.CreateTableRequest); ok && m != nil && !plainName(m.Name) && l.tableExists(m.Name) && !q.Keep {
 			l.exec(&request{N: q.N, Method: mDropTable, Kind: "cleanup", Msg: &pb.DeleteTableRequest{Name: m.Name}})
 		}
 	}
